@@ -5,6 +5,7 @@ package main
 
 import (
 	"bytes"
+	"encoding/json"
 	"fmt"
 	"io"
 	"reflect"
@@ -23,6 +24,8 @@ func (m *machine) runConc(s step) {
 		Same  bool   `json:"same"`
 		Bytes []int  `json:"bytes"`
 		OK    bool   `json:"ok"`
+		Frame []int  `json:"frame,omitempty"`
+		Obs   obj    `json:"obs,omitempty"`
 	}
 	results := make([]result, s.Procs)
 	var start, done sync.WaitGroup
@@ -35,7 +38,13 @@ func (m *machine) runConc(s step) {
 		if op == "ReadPacket" && frame == nil {
 			op = "WriteTo" // nothing written yet: the first encoding ever happens concurrently
 		}
+		if op == "ReadFrame" { // goroutine g reads its own frame from the list given in the step
+			frame = toBytes(s.Frames[g%len(s.Frames)])
+		}
 		results[g] = result{G: g, Op: op, H: h, Same: true, OK: true, Bytes: []int{}}
+		if op == "ReadFrame" {
+			results[g].Frame = ints(frame)
+		}
 		done.Add(1)
 		go func(g int, op string, p any, frame []byte) {
 			defer done.Done()
@@ -68,6 +77,20 @@ func (m *machine) runConc(s step) {
 					}
 				case "Accessors":
 					_ = project(p)
+				case "ReadFrame":
+					q, err := mq.ReadPacket(bytes.NewReader(frame))
+					if err != nil || isNilPacket(q) {
+						results[g].OK = false
+						continue
+					}
+					o := project(q)
+					js, _ := json.Marshal(o)
+					if first == nil {
+						first = js
+						results[g].Obs = o
+					} else if !bytes.Equal(first, js) {
+						results[g].Same = false
+					}
 				case "ReadPacket":
 					q, err := mq.ReadPacket(bytes.NewReader(frame))
 					if err != nil {
@@ -83,7 +106,9 @@ func (m *machine) runConc(s step) {
 					}
 				}
 			}
-			results[g].Bytes = ints(first)
+			if op != "ReadFrame" {
+				results[g].Bytes = ints(first)
+			}
 		}(g, op, p, frame)
 	}
 	start.Done()
